@@ -577,7 +577,7 @@ def _enumerate_named(tier):
 
 SUBS = [
     Sub("named_random", check_named, strategy=_dataset, quick=500, thorough=5000, shards=16,
-        floors={"nt": 0.232, "singleton_group": 0.3, "weighted": 0.249, "weighted_singleton_group": 0.15,
+        floors={"nt": 0.232, "singleton_group": 0.285, "weighted": 0.249, "weighted_singleton_group": 0.15,
                 "empty_rate_denominator": 0.2}),
     Sub("named_exhaustive", check_named, enumerate=_enumerate_named, shards=16, exhaustive=True),
     Sub("generated_random", check_generated, strategy=_generated_case, quick=700, thorough=8000, shards=16,
